@@ -20,7 +20,7 @@ Files the property is about: {files}
 
 YOUR TASK: make a BEHAVIOUR-PRESERVING refactoring of the LiteX source in {wt}, in the files listed above, of the kind a maintainer does while tidying up: rename local variables/signals, reorder independent statements, split or merge statement lists, extract a repeated expression into a named local or into a small helper function/closure, turn If/Elif chains into equivalent nested forms, replace a comprehension by a loop (or vice versa), flip comparisons, apply De Morgan, move a constant into a named constant, change `self.comb += [a, b]` into two statements, use a guard clause / early return, etc. {size} Pick the classes / functions {pick}. Every edit must leave the generated hardware / the computed results EXACTLY the same for all inputs and configurations. Do not change public names (class names, method names, parameters, attributes accessed as self.xxx from outside, CSR names). Do not change tests.
 
-Then CONVINCE YOURSELF it is behaviour-preserving: (1) the existing test-suite passes exactly as before: `cd {wt} && PYTHONPATH={wt} /venv/bin/python -m pytest -q -p no:cacheprovider --timeout=900 -n 6 test/ -rA 2>&1 | grep PASSED | sort` gives the same list before and after (record it before you start; about 112 tests pass, about 66 fail for environment reasons); (2) write a small differential check `NEUTRAL_check.py` that, for each class / function you touched, builds the module with the ORIGINAL code (a copy of the original file imported under another module name, e.g. via `git show HEAD:<path>`) and with the refactored code for a few parameterisations, and compares either the generated Verilog text modulo signal names (litex.gen.fhdl.verilog.convert) or cycle-by-cycle simulation outputs under random stimulus (migen run_simulation); for plain-Python functions compare return values over many inputs. If you find a difference, fix your refactoring (do not leave a behaviour change in).
+Then CONVINCE YOURSELF it is behaviour-preserving: (1) the existing test-suite passes exactly as before: `cd {wt} && PYTHONPATH={wt} /venv/bin/python -m pytest -q -p no:cacheprovider --timeout=900 -n 6 test/ -rA 2>&1 | grep PASSED | sort` gives the same list before and after (record it before you start; about 112 tests pass, about 66 fail for environment reasons); (2) write a small differential check `NEUTRAL_check.py` that, for each class / function you touched, builds the module with the ORIGINAL code (a copy of the original file imported under another module name, e.g. via `git show HEAD:<path>`; do NOT use `git stash`: the stash is shared between all worktrees of the repository and other participants use it too -- to go back and forth use `git diff > my.diff`, `git apply -R my.diff`, `git apply my.diff`) and with the refactored code for a few parameterisations, and compares either the generated Verilog text modulo signal names (litex.gen.fhdl.verilog.convert) or cycle-by-cycle simulation outputs under random stimulus (migen run_simulation); for plain-Python functions compare return values over many inputs. If you find a difference, fix your refactoring (do not leave a behaviour change in).
 
 Practical notes: Python is /venv/bin/python (3.12); ALWAYS run with PYTHONPATH={wt}. Migen's automatic signal naming is broken on Python 3.12 in some spots: give explicit names to Signals you create in test benches. No network. Remove sim.vcd and build outputs. Keep the whole job under about 25 minutes.
 
